@@ -38,7 +38,10 @@ def generate(tier, scen, seed, sample=None):
 
 def run_scenarios(tier, seed):
     scen = os.path.join(vlib.sub("scn"), "sync.ndjson")
-    res, n = generate(tier, scen, seed, sample=8 if tier == "quick" else None)
+    sample = 8 if tier == "quick" else None
+    if os.environ.get("VERIF_SYNC_SAMPLE"):       # development aid: 1 = every scenario of the tier's universe
+        sample = int(os.environ["VERIF_SYNC_SAMPLE"])
+    res, n = generate(tier, scen, seed, sample=sample)
     side = os.path.join(vlib.sub("traces"), "sync.side")
     out = vlib.replay("sync", scen, side_path=side, timeout=120)
     # library-level sessions on seeded random histories (haves per round trip 1 / 2 / 3 / 256, packfile limits)
